@@ -69,8 +69,10 @@ def gen_marks(rng, schema, parent_type, p=0.35):
 
 def reference_add_to_set(mark, ms):
     """the documented add_to_set (used only by generators so that they do not depend on the code under test)"""
+    import json as _json
+    key = lambda x: (x.type.name, _json.dumps(x.attrs, sort_keys=True, default=str))   # not the library's own Mark.eq
     for o in ms:
-        if o.eq(mark):
+        if key(o) == key(mark):
             return ms
     for o in ms:
         if (not mark.type.excludes(o.type)) and o.type.excludes(mark.type):
